@@ -19,6 +19,8 @@ GenConfigs(sel) ==
     [] sel = 5 -> { <<B("Dn", 1, 1, "plain"), B("U", 2, 1, "plain")>>,             \* sub-proofs inside bound lists
                     <<B("Dr", 1, 1, "plain"), B("Dn", 2, 1, "plain")>>,
                     <<B("Dn", 1, 1, "plain"), B("Dr", 1, 2, "plain")>> }
+    [] sel = 6 -> { <<B("D", 1, 1, "plain")>>, <<B("U", 1, 1, "plain")>>,          \* used with the value 3 = MINUS the value 1 for context and nonce
+                    <<B("D", 1, 1, "plain"), B("U", 2, 1, "plain")>> }
     [] OTHER -> Configs
 CONSTANT Sel
 \* Sel = 4 (three builders): the session tuple and the keys are the honest ones of session 1, labels are used;
